@@ -69,7 +69,10 @@ var slowLoggerBudget int32 = 24
 
 func rtChain(ks string) *Chain {
 	return cachedChain("rt-"+ks, func() *Chain {
-		return StdChain("rt"+strings.ToLower(strings.ReplaceAll(ks, "-", "")), 3, KeySpecName(ks))
+		// (the signer's common name has a colon and a comma in it: a release URL, a role)
+		tag := "rt" + strings.ToLower(strings.ReplaceAll(ks, "-", ""))
+		return NewChain([]CertSpec{{Subject: name("https://ci.verif.example:8443/" + tag + ", release signer"), Key: KeySpecName(ks)},
+			{Subject: name(tag + "-inter1")}, {Subject: name(tag + "-root")}})
 	})
 }
 
@@ -129,6 +132,8 @@ func rtVerifier(chain *Chain, withTSA bool, expiryLogged ...bool) (notation.Veri
 		sv.Override = map[trustpolicy.ValidationType]trustpolicy.ValidationAction{trustpolicy.TypeExpiry: trustpolicy.ActionLog}
 	}
 	stores := []string{"ca:s1"}
+	// the signer is pinned by exactly the subject of its certificate, as the certificate prints it
+	ids := []string{"x509.subject: " + chain.Leaf().Subject.String()}
 	if withTSA {
 		// a tsa store in the policy makes timestamp verification mandatory (verifyTimestamp: always)
 		st.put(truststore.TypeTSA, "t1", tsaGood().chain.Root())
@@ -136,8 +141,8 @@ func rtVerifier(chain *Chain, withTSA bool, expiryLogged ...bool) (notation.Veri
 		sv.VerifyTimestamp = trustpolicy.OptionAlways
 	}
 	v, err := verifier.NewVerifierWithOptions(st, verifier.VerifierOptions{
-		OCITrustPolicy:                  &trustpolicy.OCIDocument{Version: "1.0", TrustPolicies: []trustpolicy.OCITrustPolicy{{Name: "p", SignatureVerification: sv, TrustStores: stores, TrustedIdentities: []string{"x509.subject: " + chain.Leaf().Subject.String()}, RegistryScopes: []string{"*"}}}},
-		BlobTrustPolicy:                 &trustpolicy.BlobDocument{Version: "1.0", TrustPolicies: []trustpolicy.BlobTrustPolicy{{Name: "bp", SignatureVerification: sv, TrustStores: stores, TrustedIdentities: []string{"*"}}}},
+		OCITrustPolicy:                  &trustpolicy.OCIDocument{Version: "1.0", TrustPolicies: []trustpolicy.OCITrustPolicy{{Name: "p", SignatureVerification: sv, TrustStores: stores, TrustedIdentities: ids, RegistryScopes: []string{"*"}}}},
+		BlobTrustPolicy:                 &trustpolicy.BlobDocument{Version: "1.0", TrustPolicies: []trustpolicy.BlobTrustPolicy{{Name: "bp", SignatureVerification: sv, TrustStores: stores, TrustedIdentities: ids}}},
 		RevocationCodeSigningValidator:  ctxValidator{&mockRevocation{}},
 		RevocationTimestampingValidator: ctxValidator{&mockRevocation{}},
 	})
